@@ -168,10 +168,11 @@ def oldContent (bs : List (String × INode)) (respOf : List (String × Desc)) (s
     | _ => []
   | none => []
 
-/-- one regenerated response: merge with the recorded one, dedup, write the blob (unless it exists), record it -/
-def regenStep (respOf : List (String × Desc)) (s : IState) (kv : String × List Desc) : IState :=
+/-- one regenerated response: merge with the recorded one, dedup, write the blob (unless it exists), record it.
+    `nm` is the digest of the marshalled response (`idxName` in the driver). -/
+def regenStep (nm : List Desc → String) (respOf : List (String × Desc)) (s : IState) (kv : String × List Desc) : IState :=
   let ds := dedup (kv.2 ++ oldContent s.blobs respOf kv.1)
-  let name := idxName ds
+  let name := nm ds
   { s with blobs := if (lookup s.blobs name).isSome then s.blobs else s.blobs ++ [(name, .idx ds)],
            index := addDesc s.index (respEntry "ocii" name 0 kv.1) }
 
@@ -338,15 +339,16 @@ def phase1 (x : IState) : Conv :=
   p.digestTags.foldl (convStep x.blobs) { index := x.index, respOf := p.respOf }
 
 /-- the conversion branch of `indexIngest` -/
-def convert (order : List (String × List Desc) → List (String × List Desc)) (x : IState) : IState :=
+def convert (nm : List Desc → String) (order : List (String × List Desc) → List (String × List Desc)) (x : IState) : IState :=
   let c := phase1 x
-  let s2 := (order c.addResp).foldl (regenStep c.respOf) { x with index := c.index }
+  let s2 := (order c.addResp).foldl (regenStep nm c.respOf) { x with index := c.index }
   { s2 with index := c.rm.foldl rmDesc s2.index, converted := true }
 
-/-- `indexIngest` with the referrers API enabled; `order` is the iteration order of the Go map `addResp` -/
-def ingest (order : List (String × List Desc) → List (String × List Desc)) (x : IState) : IState :=
+/-- `indexIngest` with the referrers API enabled; `nm` is the digest function for regenerated responses,
+    `order` the iteration order of the Go map `addResp` -/
+def ingest (nm : List Desc → String) (order : List (String × List Desc) → List (String × List Desc)) (x : IState) : IState :=
   let p := pass1 x.index.manifests
-  let s1 := if x.converted then x else convert order x
+  let s1 := if x.converted then x else convert nm order x
   let sc := childScan s1.blobs { queue := p.scan, seen := p.seen, children := s1.index.children }
   { s1 with index := { s1.index with children := sc.children } }
 
